@@ -22,3 +22,18 @@ claim("C10", "property-based testing (Hypothesis) against an independent numpy o
 claim("C03", "property-based testing (Hypothesis); three independent oracles (Isserlis tensors, Gauss-Hermite, exact integer mode)",
       "All 12 integration keys x coefficient modes (shared / per-component / mixed / omitted matrix or vector) x measure kinds x cache states: integrate() is compared with the mass times Isserlis moment tensors contracted element-wise from the integrand's definition, with 3-node tensor Gauss-Hermite (D<=4, exact for degree<=5), and bit-exactly in integer mode.",
       _NOTE, "DESIGN.md §2 C03")
+claim("C05", "property-based testing (Hypothesis); numpy moment-form oracle plus information-form Schur-complement oracle",
+      "get_marginal for every duplicate-free index list in arbitrary order (full and diagonal densities) and get_density_of_linear_sum for full-row-rank W (per-component, shared W against a batch, batched W against one density; b optional) are compared pointwise with numpy; the marginal additionally with the closed-form integral of the joint over the dropped coordinates; operand immutability and diag-stays-diag are checked.",
+      _NOTE, "DESIGN.md §2 C05")
+claim("C06", "property-based testing (Hypothesis); product-rule oracle in numpy plus covariance-form Schur complement",
+      "condition_on / condition_on_explicit for every proper subset in arbitrary order: cond(x_b)(x_a) + ln p(x_b) is compared with ln p(x) from numpy at layout r*N+n, and (M,b,Sigma,Lambda,ln_det_Sigma) with the covariance-form Schur complement; row order follows the requested list.",
+      _NOTE, "DESIGN.md §2 C06")
+claim("C11", "property-based testing over generated update histories (permutations, Kalman sequences) against dense numpy references",
+      "Three posterior routes (sequential in a drawn order, stacked joint + conditioning, prior*product of set_y factors) and their evidences are compared with the numpy posterior / log marginal likelihood; Kalman filtering (T<=6 quick, <=12 thorough, incl. identity-mean state model) with the dense joint over all states and observations.",
+      _NOTE, "DESIGN.md §2 C11")
+claim("C13", "property-based testing (Hypothesis) against closed forms evaluated with numpy eigenvalues",
+      "entropy, -E[ln p] via integrate('log u(x)'), KL for (R,R),(1,n),(n,1) incl. KL(p,p)=0 and non-negativity, conditional entropy (also via -integrate_log_conditional of the (y,x) joint), mutual information (value, sign, M=0, role swap through the conditional transformation) for all linear conditional classes and batch combos.",
+      _NOTE, "DESIGN.md §2 C13")
+claim("C14", "property-based testing (Hypothesis); closed-form numpy oracle (linear) and two-resolution Gauss-Hermite oracle (feature models)",
+      "integrate('log u(x)', factor) for all factor kinds (R_f in {1,R}); integrate_log_conditional(q) for an arbitrary Gaussian q and integrate_log_conditional_y (callable and evaluated; single or paired p_x) for linear/identity/NN-control classes (closed form) and RBF / squared-exponential feature models (y analytic given x, x by Gauss-Hermite with convergence certificate).",
+      _NOTE, "DESIGN.md §2 C14")
